@@ -13,16 +13,17 @@ LEVEL = "exploration"
 RULE = ("Hypothesis-generated param-class shapes (1-4 fields over int, float, str, bool, Optional[int|float|str], str Enum, nested "
         "param-class, Scalar, Prefixed, Instantiable (Module / ExternalModuleCall / PrimitiveCall valued) and Generator) and PAIRS of "
         "value assignments biased toward near-collisions (strings with spaces, '=' and quotes, 'None' vs None, readable names of "
-        "126..130 characters, 1 vs 1.0 vs 1e0, 1000*m vs 1*UNIT, 0.1+0.2 vs 0.3, equal nested instances built separately), call forms "
+        "126..130 characters, 1 vs 1.0 vs 1e0, 1000*m vs 1*UNIT, 0.1+0.2 vs 0.3, equal nested instances built separately, and one-field 'nearest neighbour' variants: next float / 1e-13 relative, int +-1, a string with one more space or quote, a prefixed number differing in a far digit, the most alike other module), call forms "
         "(keywords / instance), call orders and patterns (direct, returned through a second generator, recursive, called inside "
-        "another generator). Oracle with a body call counter: equal params => identical Module and one body run; unequal params => "
+        "another generator), 1 case in 6 with a first call aborted inside the body by an Exception / KeyboardInterrupt / SystemExit / other BaseException. Oracle with a body call counter: equal params => identical Module and one body run; unequal params => "
         "distinct Modules with distinct names; a parent instantiating both exports with one / two module names; names do not change "
         "after first return; the names are identical in three pristine processes (plain, after 50 unrelated generator calls, after "
         "allocating 1e5 objects). Non-trivial = pair whose readable renderings are equal or whose values are equal but written "
         "differently, or any pass-through / recursive pattern; distinct by canonical case text.")
 ASSUME = ["parameter equality is Python equality of the validated param-class instances, cross-checked with exact values (Fraction for "
           "prefixed numbers); pairs on which the two notions disagree (values inside Hdl21's 1e-20 tolerance) are recorded, not asserted",
-          "Module- and Generator-valued parameters are drawn from pools of distinctly named objects"]
+          "Module-valued parameters are drawn from a pool holding distinctly named modules, modules of one name imported from two "
+          "libraries, calls of external modules of one name in two domains and primitive calls; Generator-valued ones from distinctly named generators"]
 
 PREFIX_EXPS = [-24, -21, -18, -15, -12, -9, -6, -3, -2, -1, 0, 1, 2, 3, 6, 9, 12, 15, 18, 21, 24]
 
@@ -53,7 +54,15 @@ class World:
         self.NP = NP
         X = h.ExternalModule(name="PX", port_list=[], paramtype=NP, domain="verif")
         m0 = h.Module(name="PoolA"); m1 = h.Module(name="PoolB")
-        self.pool_mod = [m0, m1, X(NP(x=1)), X(NP(x=2)), h.R(r=1), h.R(r=2)]
+        # same-named objects that are nevertheless different designs: modules of one name imported from two libraries, and
+        # external modules of one name in two domains
+        import vlsir.circuit_pb2 as vckt
+        libs = vckt.Package(domain="verif_libs")
+        for nm in ("liba.Unit", "libb.Unit"):
+            libs.modules.add().name = nm
+        ns = h.from_proto(libs)
+        X2 = h.ExternalModule(name="PX", port_list=[], paramtype=NP, domain="verif_other")
+        self.pool_mod = [m0, m1, X(NP(x=1)), X(NP(x=2)), h.R(r=1), h.R(r=2), ns.liba.Unit, ns.libb.Unit, X2(NP(x=1))]
         g0 = h.generator(self._mk_simple("PoolG0")); g1 = h.generator(self._mk_simple("PoolG1"))
         self.pool_gen = [g0, g1]
         dt = {"int": int, "float": float, "str": str, "bool": bool, "oint": typing.Optional[int], "ofloat": typing.Optional[float],
@@ -109,7 +118,13 @@ class World:
         P = self.P
         counts = self.counts
 
+        world = self
+        self.fail_next = None
+
         def body(params: P) -> h.Module:
+            if world.fail_next is not None:
+                exc, world.fail_next = world.fail_next, None
+                raise exc
             counts["G"] = counts.get("G", 0) + 1
             m = h.Module()
             m.add(h.Signal(name="s"))
@@ -265,6 +280,20 @@ def run_case(case, history="plain"):
             return gen(**vals)
         return gen(p)
 
+    if case.get("interrupt"):
+        # history: the very first call is aborted inside the body - by an ordinary exception or by a BaseException the caller
+        # survives (KeyboardInterrupt at a prompt, SystemExit caught by a runner) - and leaves nothing behind
+        class Stop(BaseException):
+            pass
+        w.fail_next = {"Exception": ValueError("body failed"), "KeyboardInterrupt": KeyboardInterrupt(), "SystemExit": SystemExit(3),
+                       "custom_base": Stop()}[case["interrupt"]]
+        try:
+            call(gens[0], v1, p1, case.get("form1", "kw"))
+            out["notes"].append("interrupted_call_returned")
+        except BaseException:  # noqa
+            pass
+        w.fail_next = None
+        w.counts.clear()
     try:
         # a result nobody holds on to is still memoised: drop it, collect garbage, call again
         import gc
@@ -391,10 +420,41 @@ def strategies():
             return st.one_of(pr, st.integers(-5, 5).map(lambda i: {"t": "int", "v": str(i)}), st.sampled_from(["w/5", "1e3", "x y"]).map(J("str")),
                              st.sampled_from(["lit", "1"]).map(lambda s: {"t": "lit", "v": s}))
         if code == "module":
-            return st.integers(0, 5).map(J("module"))
+            return st.integers(0, 8).map(J("module"))
         if code == "gen":
             return st.integers(0, 1).map(J("gen"))
         raise ValueError(code)
+
+    def near(draw, code, v):
+        """A value of the same field that is unequal to v but as close to it as the type allows (or None if there is none)."""
+        import math
+        t = v["t"]
+        if t == "float":
+            x = float.fromhex(v["v"])
+            k = draw(st.integers(0, 4))
+            y = [math.nextafter(x, math.inf), x * (1 + 1e-13), x * (1 - 1e-15), x + 1e-7, float("%.12g" % x)][k]
+            if x == 0:
+                y = [5e-324, 1e-300, -1e-300, 1e-7, 1e-13][k]
+            return {"t": "float", "v": float(y).hex()} if y != x and math.isfinite(y) else None
+        if t == "int":
+            return {"t": "int", "v": str(int(v["v"]) + draw(st.sampled_from([1, -1])))}
+        if t == "str":
+            w = v["v"]
+            y = draw(st.sampled_from([w + " ", " " + w, w.replace(" ", "  "), repr(w), w + "'", w.replace("=", " = "), w.upper(), w[:-1]]))
+            return {"t": "str", "v": y} if y != w else None
+        if t == "bool":
+            return {"t": "bool", "v": not v["v"]}
+        if t == "none":
+            return {"t": "str", "v": "None"} if code == "ostr" else {"t": "int", "v": "0"} if code == "oint" else {"t": "float", "v": (0.0).hex()} if code == "ofloat" else None
+        if t == "pref":
+            d = Decimal(v["v"][0])
+            y = d + Decimal(1).scaleb(d.as_tuple().exponent - draw(st.integers(0, 18)))
+            return {"t": "pref", "v": [str(y), v["v"][1]]}
+        if t == "nested":
+            return {"t": "nested", "v": {"x": v["v"]["x"], "s": v["v"]["s"] + " "}}
+        if t == "module":
+            return {"t": "module", "v": {0: 1, 1: 0, 2: 8, 8: 2, 3: 2, 4: 5, 5: 4, 6: 7, 7: 6}[v["v"]]}  # the most alike other pool entry
+        return None
 
     @st.composite
     def cases(draw):
@@ -410,10 +470,15 @@ def strategies():
         how = draw(st.integers(0, 9))
         if how <= 2:
             vals2 = json.loads(json.dumps(vals1))  # equal, written the same
-        elif how <= 5:
+        elif how <= 4:
             vals2 = json.loads(json.dumps(vals1))  # differ in one field
             k = draw(st.sampled_from(names))
             vals2[k] = draw(val(dict(fields)[k]))
+        elif how <= 6:
+            vals2 = json.loads(json.dumps(vals1))  # differ in one field, by as little as the type allows
+            k = draw(st.sampled_from(names))
+            nv = near(draw, dict(fields)[k], vals1[k])
+            vals2[k] = nv if nv is not None else draw(val(dict(fields)[k]))
         else:
             vals2 = {nm: draw(val(c)) for nm, c in fields}
         # the classic readable-name collision: a='x b=y', b='z'  vs  a='x', b='y b=z'
@@ -426,8 +491,11 @@ def strategies():
             return {"pattern": "recursive", "fields": [["n", "int"], ["s", "str"]], "vals1": {}, "vals2": {},
                     "n1": draw(st.integers(0, 4)), "n2": draw(st.integers(0, 4)), "s1": draw(strs_r), "s2": draw(strs_r)}
         pattern = draw(st.sampled_from(["direct", "direct", "direct", "passthrough", "passthrough2", "nested", "both_through"]))
-        return {"fields": fields, "vals1": vals1, "vals2": vals2, "pattern": pattern,
+        case = {"fields": fields, "vals1": vals1, "vals2": vals2, "pattern": pattern,
                 "form1": draw(st.sampled_from(["kw", "inst"])), "form2": draw(st.sampled_from(["kw", "inst"]))}
+        if draw(st.integers(0, 5)) == 0:
+            case["interrupt"] = draw(st.sampled_from(["Exception", "KeyboardInterrupt", "SystemExit", "custom_base"]))
+        return case
 
     return cases()
 
@@ -457,6 +525,8 @@ def shard(idx, n, tier):
         for sig, detail in r["fails"]:
             res.fail(sig, case, detail)
         feats = ["pattern_" + case["pattern"], "equal" if r.get("equal") else "unequal"] + ["dtype_" + c for _, c in case["fields"]]
+        if case.get("interrupt"):
+            feats.append("first_call_aborted_by_" + case["interrupt"])
         if r.get("rendered_equal"):
             feats.append("rendered_equal")
         res.case(case, nontrivial(case, r), feats)
